@@ -44,4 +44,64 @@ theorem C20_templates_have_no_unsafe :
     Extracted.sharedState.all (fun s => !hasPrefix s "codegen/src") = true ∧
     Extracted.sharedState.all (fun s => !hasSub s "codegen/") = true := codegen_has_no_unsafe
 
+/-! ## non-vacuity (BEGIN) -/
+namespace C20_nv
+open CacheDemo
+
+/-! instance: `CacheDemo.env` = `@export S = a:A; @memoize @string A = 'x' | 'y';` (a grammar WITH a cache, so the
+    statements are not about a stateless parser); the history `"x"`, `"y"`, `"x"`, `"z"` -/
+def cx : Call := ("S", [120], 0)
+def cy : Call := ("S", [121], 0)
+def cz : Call := ("S", [122], 0)
+
+/-- what one call returns: the byte of field `a`, or `none` for a failed parse -/
+def obs : Out Val → Option (Option UInt8)
+  | some (.ok (.node "S" [("a", .str [b])] none) _, _) => some (some b)
+  | some (.err _, _) => some none
+  | _ => none
+
+/-- `C20_history`: the third call of the history `x y x z` returns what a lone call on `"x"` returns … -/
+example : (procRun env 16 none ([cx, cy] ++ cx :: [cz]))[2]? = some (parseAdvanced env 16 "S" [120] 0) :=
+  C20_history env 16 [cx, cy] [cz] cx
+/-- … and the whole history, observed: `x`, `y`, `x` again (not the stale `y`), then a failure -/
+example : (procRun env 16 none [cx, cy, cx, cz]).map obs = [some (some 120), some (some 121), some (some 120), some none] := by
+  decide +kernel
+/-- each of these calls filled a cache (which the next call does not see) -/
+example : (procRun env 16 none [cx, cy, cx, cz]).map (fun o => o.map (·.2.cache.length)) = [some 1, some 1, some 1, some 1] := by
+  decide +kernel
+
+/-- `C20_again`: positions 0 and 2 of the history `x y x z` (`pre = []`, `mid = [y]`) -/
+example : (procRun env 16 none ([] ++ cx :: ([cy] ++ cx :: [cz])))[0]? =
+    (procRun env 16 none ([] ++ cx :: ([cy] ++ cx :: [cz])))[0 + 1 + 1]? :=
+  C20_again env 16 [] [cy] [cz] cx
+
+/-! `C20_schedule`: two threads (`demoProgs`: thread 0 parses `"x"` then `"y"`, thread 1 parses `"z"`), two different
+    complete schedules -/
+theorem complete1 : Complete demoProgs [0, 1, 0] := fun i =>
+  match i with
+  | 0 => by decide
+  | 1 => by decide
+  | _+2 => attach_untouched _ _ _ rfl
+theorem complete2 : Complete demoProgs [1, 0, 0, 1] := fun i =>
+  match i with
+  | 0 => by decide
+  | 1 => by decide
+  | _+2 => attach_untouched _ _ _ rfl
+/-- an incomplete schedule exists too (thread 0 still has a call to make): `Complete` is a real condition -/
+example : ¬ Complete demoProgs [0, 1] := fun h => absurd (h 0) (by decide)
+
+example : proj 0 (runSchedule (parserStep env 16) (fun _ => []) demoProgs [0, 1, 0]).2 =
+      (demoProgs 0).map (fun c => parseAdvanced env 16 c.1 c.2.1 c.2.2) ∧
+    proj 0 (runSchedule (parserStep env 16) (fun _ => []) demoProgs [0, 1, 0]).2 =
+      proj 0 (runSchedule (parserStep env 16) (fun _ => []) demoProgs [1, 0, 0, 1]).2 :=
+  C20_schedule env 16 demoProgs [0, 1, 0] [1, 0, 0, 1] complete1 complete2 0
+/-- the interleaved global result sequences differ, the per-thread views do not -/
+example : (runSchedule (parserStep env 16) (fun _ => []) demoProgs [0, 1, 0]).2.map (fun p => (p.1, obs p.2)) =
+      [(0, some (some 120)), (1, some none), (0, some (some 121))] ∧
+    (runSchedule (parserStep env 16) (fun _ => []) demoProgs [1, 0, 0, 1]).2.map (fun p => (p.1, obs p.2)) =
+      [(1, some none), (0, some (some 120)), (0, some (some 121))] := by decide +kernel
+
+end C20_nv
+/-! ## non-vacuity (END) -/
+
 end Peg.Props
